@@ -1,7 +1,7 @@
 /* C13 harnesses: DMA engine and AHBM port (src/dma.cpp, src/dma.h, src/ahbm.cpp) */
 #include "dma_types.h"
 #include "dma_spec.h"
-#include "dma.h"
+#include "dma_contracts.h"
 #include "common.h"
 int verif_outcome;
 ext_access ghost_ext_log[EXT_LOG];
